@@ -124,6 +124,20 @@ Print Assumptions C09_no_branch.
    evaluated on every applicable case by corr:closure (on the implementation, at byte level) and inside the model (the
    CL field of run_c09: py_of then write then compare). *)
 
+(** the full closure statement is FALSE of the faithful model (and of the code) without a further hypothesis: a bytearray
+    of the fixed's size under [null, fixed(2), bytes] does not validate as fixed (only bytes does), is written under the
+    unnamed "bytes" branch, is read back as a bytes object -- and that validates against the EARLIER fixed branch *)
+Theorem C09_closure_refuted : exists o e s v a pv bs',
+  elab 9 o e s v = WOk a /\ py_of ro_named e s a = Some pv /\ write 9 o e s pv = WOk bs' /\ bs' <> wire a.
+Proof.
+  exists {| strict := false; strict_allow_default := false; disable_tuple := false |}, [],
+         (SUnion [SNull; SFixed (s2b "F") [] 2; SBytes]), (PByteArray [97; 98]),
+         (AUnion 2 (ABytes [97; 98])), (PBytes [97; 98]), [2; 97; 98].
+  split; [vm_compute; reflexivity|]. split; [vm_compute; reflexivity|]. split; [vm_compute; reflexivity|].
+  vm_compute. discriminate.
+Qed.
+Print Assumptions C09_closure_refuted.
+
 (** proved part: the union node.  A value read with return_named_type=True under a NAMED branch (record / enum / fixed
     inline, or a by-name reference) is the pair (name, value); written back with tuple notation it selects the same
     index -- no earlier branch answers to that name -- and the inner value is encoded under that branch again *)
